@@ -459,7 +459,9 @@ Fixpoint gf_regenerate (g : gf) (t : tr) (s : sel) (args : value) {struct g}
                    | _, DNone => d1
                    | _, _ => dm_merge_chk c0 d1 d2
                    end in
-          SRet (TrCond c t1' t2', if c then w1 else w2, d)
+          (* when the condition switches, the previously visible branch's score is accounted for *)
+          let corr := get_score t - (if c then get_score t1 else get_score t2) in
+          SRet (TrCond c t1' t2', (if c then w1 else w2) + corr, d)
       | _ => SErr EType
       end
   end
